@@ -27,7 +27,8 @@ def no_compare_inline(n, r):
 def engine(config="dflt", unit="scpi"):
     P = facts.program(config)
     u = P.unit(unit)
-    return fdai.Engine(P, u, inline=no_compare_inline, models={}, max_paths=3000, max_depth=10)
+    # (loop_limit: a lookup table of a handful of keywords walked by a loop must be walked to its end)
+    return fdai.Engine(P, u, inline=no_compare_inline, models={}, max_paths=3000, max_depth=10, loop_limit=8)
 
 
 def conversions(u):
